@@ -67,11 +67,12 @@ def run (kind : String) (fs : List String) : Option (String × String) :=
       | none => "ok"
     some (joinWith ";" model, verdict)
   else if kind == "lbc" then
-    let evs := ((kv fs "trace").splitOn ",").map Spec.Reload.parseEv
-    let verdict := match Spec.Reload.checkTasks evs with
-      | some c => c
-      | none => "ok"
-    some ("-", verdict)
+    let evs := ((kv fs "trace").splitOn ",").flatMap fun s =>
+      match Spec.Reload.parseEvs s with
+      | [] => [Spec.Reload.parseEv s]
+      | l => l
+    let cs := Spec.Reload.checkTasks evs
+    some ("-", if cs.isEmpty then "ok" else joinWith ";" cs)
   else none
 
 end Nic.Drv.Reload
